@@ -140,6 +140,7 @@ func c19ParseRaces(text, repo string) map[string]*c19RacePair {
 			top := ""
 			bottom := ""
 			root := ""
+			deep := ""
 			for i+1 < len(lines) && strings.HasPrefix(lines[i], "  ") {
 				m := c19FrameRe.FindStringSubmatch(lines[i])
 				file := strings.TrimSpace(lines[i+1])
@@ -169,10 +170,17 @@ func c19ParseRaces(text, repo string) map[string]*c19RacePair {
 						fn = fn[j+1:]
 					}
 					bottom = strings.NewReplacer("(*", "", ")", "").Replace(fn) // the outermost /repo frame = how this goroutine got there
+					// fallback root: the first frame (from the top) that is an accessor function of a shared variable
+					if root == "" && deep == "" {
+						deep = c19VarOfFunc(bottom)
+					}
 				}
 				i += 2
 			}
 			vias = append(vias, bottom)
+			if root == "" {
+				root = deep
+			}
 			roots = append(roots, root)
 			if top == "" {
 				top = "<outside-repo>"
@@ -211,4 +219,32 @@ func c19ParseRaces(text, repo string) map[string]*c19RacePair {
 		}
 	}
 	return out
+}
+
+// c19VarOfFunc: the shared variable a function (race-report spelling `pkg.Type.Method` / `pkg.Func`, closures
+// `….funcN`) accesses directly according to the last scan ("" if none)
+func c19VarOfFunc(fn string) string {
+	if c19LastScan == nil {
+		return ""
+	}
+	for strings.Contains(fn, ".func") {
+		fn = fn[:strings.LastIndex(fn, ".func")]
+	}
+	cands := []string{fn}
+	if i := strings.Index(fn, "."); i >= 0 && strings.Count(fn, ".") >= 2 {
+		cands = append(cands, fn[i+1:])
+	}
+	best := ""
+	for _, f := range c19LastScan.all {
+		for _, c := range cands {
+			if f.name == c {
+				for _, a := range f.accesses {
+					if n := c19Vars[a.v].Name; best == "" || n < best {
+						best = n
+					}
+				}
+			}
+		}
+	}
+	return best
 }
